@@ -76,6 +76,10 @@ class HistSpec(Spec):
         from .engines import hist
 
         world.install_seams()
+        if prop == "C09" and seed % 5 == 0:
+            from .engines import sched
+
+            return sched.SchedRun(seed, tier, tag, prop="C09").run()
         if prop in STORE_PROPS and seed % 4 == 0:
             from .engines import store
 
@@ -92,10 +96,16 @@ class HistSpec(Spec):
             from .engines import store
 
             return store.StoreRun(doc["prop"], doc["cfg"], ops=doc["ops"], tag=tag).run()
+        if doc.get("engine") == "sched":
+            from .engines import sched
+
+            return sched.SchedRun(doc.get("seed", 0), "thorough", tag, plan=doc["plan"], prop=doc["prop"]).run()
         return hist.HistRun(doc["prop"], doc["cfg"], ops=doc["ops"], tag=tag).run()
 
     # -- aggregation ---------------------------------------------------------
     def nontrivial_keys(self, res):
+        if res.get("engine") == "sched":
+            return []
         nt = res.get("nontrivial") or {}
         p = self.prop
         ok = False
@@ -124,7 +134,7 @@ class HistSpec(Spec):
         return [ops_digest(res.get("ops", []))] if ok else []
 
     def sample(self, res):
-        if res.get("engine") == "store":
+        if res.get("engine") in ("store", "sched"):
             return None
         ops = res.get("ops", [])
         short = []
@@ -141,6 +151,9 @@ class HistSpec(Spec):
         w = res.get("world") or {}
         agg.add_stats({"fault.restart_total": 0})
         c = res.get("cfg", {})
+        if res.get("engine") == "sched":
+            agg.add_stats({"overlapping_request_schedules": res.get("schedules", 0)})
+            return
         if res.get("engine") == "store":
             agg.add_stats({"store_api_runs": 1, "store_api.backend." + str(c.get("backend")): 1})
             if len(agg.samples) < 4 and res.get("samples") and not agg.extra.get("store_sample"):
@@ -158,6 +171,12 @@ class HistSpec(Spec):
 
     # -- replay / minimisation --------------------------------------------------
     def replay_doc(self, prop, v, res):
+        if res.get("engine") == "sched":
+            plan = res["plan"]
+            if v.get("schedule") is not None:
+                plan = dict(plan, schedules=[v["schedule"]])
+            return {"engine": "sched", "prop": prop, "seed": v.get("seed"), "plan": plan, "expect": {"oracle": v["oracle"], "sig": v["sig"]},
+                    "detail": v.get("detail"), "digest": None, "minimised": False}
         return {
             "engine": res.get("engine", "hist"),
             "prop": prop,
@@ -171,6 +190,8 @@ class HistSpec(Spec):
         }
 
     def minimise(self, prop, v, res, farm):
+        if res.get("engine") == "sched":
+            return self.replay_doc(prop, v, res)
         want = (v["oracle"], json.dumps(v["sig"], sort_keys=True))
         cfg = dict(res["cfg"])
         state = {"last": None}
